@@ -203,7 +203,12 @@ def _base_ptr(e):
 
 def r2b_length_invariant(r, facts):
     ws = c08.owned_writers(facts)
+    ws2 = []
     for f, loc, kind, e in ws:
+        # (`owned.map(|p| change_size(p, n))` written out stores None | Some(change_size(..)): the Some alternative counts)
+        for a in (e[1] if (kind == 'store' and e and e[0] == 'phi') else [e]):
+            ws2.append((f, loc, kind, a))
+    for f, loc, kind, e in ws2:
         if kind != 'store' or not (e[0] == 'agg' and e[1].endswith('Option::Some')):
             continue
         v = e[3][0]
@@ -221,7 +226,8 @@ def r2b_length_invariant(r, facts):
         else:
             gs = guard_edges(f, loc, ExprBuilder(f, multi='phi'))
             same = lambda e2: e2 == new_len
-            if any(implies_le(g, same, owned_len) for g in gs):
+            self_len = lambda e2: strip(e2)[0] == 'call' and strip(e2)[1] == RB + '::len' and strip(e2)[2] and strip(e2)[2][0][0] == 'arg' and strip(e2)[2][0][1] == 1
+            if any(implies_le(g, same, owned_len) or implies_le(g, same, self_len) for g in gs):
                 status = 'guarded <= old length'
             elif any(implies_le(g, same, is_capacity) for g in gs):
                 status = 'guarded <= capacity'
